@@ -38,6 +38,7 @@ def run(ctx):
         "`?` on Result propagates Err to the caller (language semantics)",
         "reply classification (what counts as a positive acknowledgement) is C08's subject",
     ]
+    r9_spawned_tasks(chk, fx)
     r8_run_verdict(chk, fx)      # form-independent; first, so that what it establishes stands even if a shape-bound rule below loses its anchor
     r1_run_chain(chk, fx)
     r2_load_config(chk, fx)
@@ -597,6 +598,33 @@ def r7_close_verdict(chk, fx):
 
 
 # ---------------------------------------------------------------------------------------------
+def r9_spawned_tasks(chk, fx):
+    """run() hands the reply futures of its two <get-config> requests to tasks of their own (the candidates are evaluated in one, the
+    installed state is read in the other) and joins them before it loads anything (R1, R5, R8).  Inside such a task the awaited reply
+    is a step of the run like any other: when it failed — an rpc-error, a reply that could not be read — the task fails; a reply error
+    turned into a value ("nothing installed yet") lets the run load and commit against a state it never obtained.  Decided on the
+    explored paths of every async block nested in run(): a path that assumed an awaited value to be Err returns Err."""
+    from vlib import absint as A
+    b = fx.user_coroutine(RUN)
+    names = sorted(n for n in fx.thir if n.startswith(b.name + "::{closure#") and n in fx.mir and fx.mir[n].coroutine)
+    n_err = 0
+    for n in names:
+        chk.analysed(n)
+        label = "run" + n[len(b.name):].replace("::{closure#", "#").replace("}", "")
+        for p in A.Interp(fx, crates=(AGENT,), max_paths=3000).explore(n):
+            if p.end == "abort":
+                continue
+            failed = [k for k, v in p.assume.items() if k.startswith("variant:") and k.endswith(".await") and v == "Err"]
+            if not failed:
+                continue
+            n_err += 1
+            is_err = A.is_res(p.ret) and p.ret[2] == "Err" and p.end in ("return", "fallthrough")
+            chk.instance("C04/R9", "task %s: a failed reply (%s) fails the task" % (label, failed[0][8:][:50]), n, loc_of(fx.thir[n].get("sp")), holds=is_err,
+                         key="C04/R9 %s failed-reply-does-not-fail-the-task" % label,
+                         detail=None if is_err else "the task goes on with %s: run() loads and commits although this step failed" % (A.vstr(p.ret)[:80] if p.ret is not None else p.end))
+    chk.floor("C04/R9 failing-reply paths in the tasks spawned by run()", n_err, 2)
+
+
 RUN_STEPS = ("connect", "open_db", "fetch_config", "load_config", "commit_config", "close_db", "close")
 
 
